@@ -183,11 +183,44 @@ Qed.
 Lemma Inv_with_gdir : forall s g, Inv s -> Inv (with_gdir s g).
 Proof. intros s g H. exact H. Qed.
 
+Definition clean (s : st) : Prop := forall di k c, In (di, k, c) (dk s) -> exists x, c = FGood x.
+
+Lemma best_file_some : forall l n sig a, best_file n sig l (Some a) <> None.
+Proof.
+  induction l as [|[k c] l IH]; intros n sig a; simpl; [discriminate|].
+  destruct ((snd k =? sig) && (n <=? fst k) && (let (k', _) := a in fst k <? fst k')); apply IH.
+Qed.
+
+Lemma best_file_none : forall l n sig, best_file n sig l None = None ->
+  forall k c, In (k, c) l -> snd k = sig -> fst k < n.
+Proof.
+  induction l as [|[k0 c0] l IH]; intros n sig H k c Hin Hs; [destruct Hin|].
+  simpl in H.
+  destruct ((snd k0 =? sig) && (n <=? fst k0) && true) eqn:E.
+  - exfalso. eapply best_file_some; eauto.
+  - destruct Hin as [Hi|Hi].
+    + inversion Hi; subst. rewrite Nat.eqb_refl in E. cbn [andb] in E. rewrite andb_true_r in E.
+      apply Nat.leb_gt in E. exact E.
+    + eapply IH; eauto.
+Qed.
+
+Lemma largest_file_in : forall l sig acc k c, largest_file sig l acc = Some (k, c) ->
+  acc = Some (k, c) \/ (In (k, c) l /\ snd k = sig).
+Proof.
+  induction l as [|[k0 c0] l IH]; intros sig acc k c H; simpl in H; [auto|].
+  destruct ((snd k0 =? sig) && match acc with Some (k', _) => fst k' <? fst k0 | None => 0 <? fst k0 end) eqn:E.
+  - destruct (IH _ _ _ _ H) as [Ha|[Hi Hs]].
+    + inversion Ha; subst. right. split; [left; reflexivity|].
+      apply andb_true_iff in E. destruct E as [E _]. apply Nat.eqb_eq in E. exact E.
+    + right. split; [right; exact Hi|exact Hs].
+  - destruct (IH _ _ _ _ H) as [Ha|[Hi Hs]]; [left; exact Ha|right; split; [right; exact Hi|exact Hs]].
+Qed.
+
 Lemma ensure_good : forall s n sig bd s1 oe,
   Inv s -> uses_bad_dir s bd = false -> ensure_bs s n sig bd = (s1, oe) ->
   Inv s1 /\
   (oe = None -> exists x, bs s1 = Some x /\ bs_prm s1 = Some (n, sig) /\ good_x x n sig) /\
-  (forall e, oe = Some e -> exists di k pe, In (di, k, FBad pe) (dk s)).
+  (forall e, oe = Some e -> clean s -> False).
 Proof.
   intros s n sig bd s1 oe HI Hbad He. unfold ensure_bs in He.
   pose proof HI as [HI0 Hh].
@@ -204,33 +237,61 @@ Proof.
       split; auto. repeat split; auto. }
     destruct dir as [di|].
     + apply negb_false_iff in Hbad. rewrite Hbad in He.
-      assert (Hreg : forall s1 oe,
-                (set_bs (with_gdir s g) g (ideal n sig) n sig
-                        (put_file fkey_eqb di (n, sig) (FGood (ideal n sig)) (dk s)), @None exc) = (s1, oe) ->
-                Inv s1 /\
-                (oe = None -> exists x, bs s1 = Some x /\ bs_prm s1 = Some (n, sig) /\ good_x x n sig) /\
-                (forall e, oe = Some e -> exists di k pe, In (di, k, FBad pe) (dk s))).
-      { intros s1' oe' E. inversion E; subst. split; [apply Hgen; apply honest_put; auto|].
+      set (generate := (set_bs (with_gdir s g) g (ideal n sig) n sig
+                          (put_file fkey_eqb di (n, sig) (FGood (ideal n sig)) (dk s)), @None exc)) in *.
+      assert (Hg1 : forall s1' oe', generate = (s1', oe') ->
+                Inv s1' /\
+                (oe' = None -> exists x, bs s1' = Some x /\ bs_prm s1' = Some (n, sig) /\ good_x x n sig) /\
+                (forall e, oe' = Some e -> clean s -> False)).
+      { intros s1' oe' E. unfold generate in E. inversion E; subst. split; [apply Hgen; apply honest_put; auto|].
         split; [|discriminate]. intros _. exists (ideal n sig). cbn. repeat split; auto. }
-      destruct (pick n sig di (dk s)) as [[k c]|] eqn:Epk; [|apply Hreg; auto].
-      destruct (pick_spec _ _ _ _ _ _ Epk) as (Hk1 & Hk2 & Hk3). pose proof (Hh _ _ _ Hk3) as Hc.
-      destruct c as [x|pe|]; [|destruct pe|apply Hreg; auto].
-      * inversion He; subst s1 oe. clear He. subst x.
-        assert (Hgx : good_x (crop n (ideal (fst k) (snd k))) n (snd k)).
-        { unfold crop, good_x. cbn [x_n ideal]. destruct (n <? fst k) eqn:E4; cbn; repeat split; auto.
-          apply Nat.ltb_ge in E4. lia. }
-        rewrite <- Hk1.
-        split; [|split; [|discriminate]].
-        -- unfold Inv, set_bs. cbn [bs bs_prm trf_prm tri_prm trf tri dk]. split; auto.
-           split; [exact Hgx|]. split; exact I.
-        -- intros _. eexists. cbn [bs bs_prm set_bs]. split; [reflexivity|]. split; [reflexivity|exact Hgx].
-      * inversion He; subst. split; [apply Inv_with_gdir; auto|]. split; [discriminate|].
-        intros e _. exists di, k, PEOF. auto.
-      * apply Hreg; auto.
-      * inversion He; subst. split; [apply Inv_with_gdir; auto|]. split; [discriminate|].
-        intros e _. exists di, k, PZip. auto.
-      * inversion He; subst. split; [apply Inv_with_gdir; auto|]. split; [discriminate|].
-        intros e _. exists di, k, PUnsupported. auto.
+      (* regenerate, knowing that when all files are good no sufficient one exists *)
+      assert (Hreg : forall s1' oe',
+                (clean s -> forall k c, In (k, c) (in_dir di (dk s)) -> snd k = sig -> fst k < n) ->
+                match old_basis n sig di (dk s) with
+                | Some (FGood x) => if n <? x_n x then (with_gdir s g, Some EValue) else generate
+                | Some FShape => (with_gdir s g, Some EValue)
+                | _ => generate
+                end = (s1', oe') ->
+                Inv s1' /\
+                (oe' = None -> exists x, bs s1' = Some x /\ bs_prm s1' = Some (n, sig) /\ good_x x n sig) /\
+                (forall e, oe' = Some e -> clean s -> False)).
+      { intros s1' oe' Hsmall E. unfold old_basis in E.
+        destruct (find_file fkey_eqb di (n, sig) (dk s)) as [c0|]; [apply Hg1; auto|].
+        destruct (largest_file sig (in_dir di (dk s)) None) as [[k c]|] eqn:El; [|apply Hg1; auto].
+        destruct (largest_file_in _ _ _ _ _ El) as [Ha|[Hin Hs]]; [discriminate|].
+        pose proof (in_dir_In _ _ _ _ Hin) as Hin'. pose proof (Hh _ _ _ Hin') as Hc.
+        destruct c as [x|pe|].
+        - subst x. cbn [x_n ideal] in E. destruct (n <? fst k) eqn:En; [|apply Hg1; auto].
+          inversion E; subst s1' oe'. split; [apply Inv_with_gdir; auto|]. split; [discriminate|].
+          intros e _ Hcl. apply Nat.ltb_lt in En. specialize (Hsmall Hcl _ _ Hin Hs). lia.
+        - apply Hg1; auto.
+        - inversion E; subst s1' oe'. split; [apply Inv_with_gdir; auto|]. split; [discriminate|].
+          intros e _ Hcl. destruct (Hcl _ _ _ Hin') as [x Hx]. discriminate. }
+      destruct (pick n sig di (dk s)) as [[k c]|] eqn:Epk.
+      * destruct (pick_spec _ _ _ _ _ _ Epk) as (Hk1 & Hk2 & Hk3). pose proof (Hh _ _ _ Hk3) as Hc.
+        assert (Hnc : clean s -> forall x, c = FGood x \/ True) by auto.
+        destruct c as [x|pe|]; [|destruct pe|].
+        -- inversion He; subst s1 oe. clear He. subst x.
+           assert (Hgx : good_x (crop n (ideal (fst k) (snd k))) n (snd k)).
+           { unfold crop, good_x. cbn [x_n ideal]. destruct (n <? fst k) eqn:E4; cbn; repeat split; auto.
+             apply Nat.ltb_ge in E4. lia. }
+           rewrite <- Hk1.
+           split; [|split; [|discriminate]].
+           ++ unfold Inv, set_bs. cbn [bs bs_prm trf_prm tri_prm trf tri dk]. split; auto.
+              split; [exact Hgx|]. split; exact I.
+           ++ intros _. eexists. cbn [bs bs_prm set_bs]. split; [reflexivity|]. split; [reflexivity|exact Hgx].
+        -- inversion He; subst. split; [apply Inv_with_gdir; auto|]. split; [discriminate|].
+           intros e _ Hcl. destruct (Hcl _ _ _ Hk3) as [x Hx]. discriminate.
+        -- eapply Hreg; [|exact He]. intros Hcl. destruct (Hcl _ _ _ Hk3) as [x Hx]. discriminate.
+        -- inversion He; subst. split; [apply Inv_with_gdir; auto|]. split; [discriminate|].
+           intros e _ Hcl. destruct (Hcl _ _ _ Hk3) as [x Hx]. discriminate.
+        -- inversion He; subst. split; [apply Inv_with_gdir; auto|]. split; [discriminate|].
+           intros e _ Hcl. destruct (Hcl _ _ _ Hk3) as [x Hx]. discriminate.
+        -- eapply Hreg; [|exact He]. intros Hcl. destruct (Hcl _ _ _ Hk3) as [x Hx]. discriminate.
+      * eapply Hreg; [|exact He]. intros _.
+        unfold pick in Epk. destruct (find_file fkey_eqb di (n, sig) (dk s)); [discriminate|].
+        apply best_file_none; auto.
     + inversion He; subst. split; [apply Hgen; auto|]. split; [|discriminate].
       intros _. exists (ideal n sig). cbn. repeat split; auto.
 Qed.
@@ -256,7 +317,7 @@ Lemma step_good : forall s o s' r,
   Inv s' /\
   (is_call o = true ->
      out_eqv r (fresh o) = true \/
-     exists e di k pe, r = Raise e /\ In (di, k, FBad pe) (dk s)).
+     exists e, r = Raise e /\ (clean s -> False)).
 Proof.
   intros s o s' r HI Hz Hs. destruct o as [n sig reg corr dr fwd bd|sel|bd|bd|d k c|d k].
   - cbn [step hazard] in *. unfold step_call in Hs.
@@ -264,7 +325,7 @@ Proof.
     destruct (ensure_good _ _ _ _ _ _ HI Hz Ee) as (HI1 & Hb & Hraise).
     destruct oe as [e|].
     + inversion Hs; subst. split; auto. intros _. right.
-      destruct (Hraise e eq_refl) as (di & k & pe & Hin). exists e, di, k, pe. auto.
+      exists e. split; auto. exact (Hraise e eq_refl).
     + destruct (Hb eq_refl) as (x & Hbs & Hp & Hg). rewrite Hbs in Hs.
       assert (Hbd : match bd with BPath d => dir_writable d = true | _ => True end).
       { destruct bd; auto. unfold uses_bad_dir in Hz. simpl in Hz. apply negb_false_iff in Hz. auto. }
@@ -334,8 +395,6 @@ Proof.
 Qed.
 
 (* ---- no damaged file -------------------------------------------------------------- *)
-Definition clean (s : st) : Prop := forall di k c, In (di, k, c) (dk s) -> forall pe, c <> FBad pe.
-
 Lemma step_dk : forall s o s' r, step s o = (s', r) ->
   forall di k c, In (di, k, c) (dk s') ->
     In (di, k, c) (dk s) \/ (exists x, c = FGood x) \/ (exists d0 k0, o = Seed d0 k0 c).
@@ -347,6 +406,7 @@ Proof.
     { revert Ee. unfold ensure_bs. destruct (bs_hit s n sig); [intros E; inversion E; subst; auto|].
       destruct (resolve (gdir s) bd) as [g dir]. destruct dir as [d1|].
       - destruct (dir_writable d1); destruct (pick n sig d1 (dk s)) as [[k1 [x1|[]|]]|];
+          destruct (old_basis n sig d1 (dk s)) as [[x2|e2|]|]; try destruct (n <? x_n x2);
           intros E; inversion E; subst; cbn [dk set_bs with_gdir]; intros Hi;
           first [ left; exact Hi
                 | destruct Hi as [Hi|Hi];
@@ -376,12 +436,11 @@ Qed.
 Lemma step_clean : forall s o s' r, clean s -> damage o = false -> hazard s o = false ->
   step s o = (s', r) -> clean s'.
 Proof.
-  intros s o s' r Hc Hd Hz Hs di k c Hin pe.
-  destruct (step_dk _ _ _ _ Hs _ _ _ Hin) as [H|[[x ->]|(d0 & k0 & ->)]]; [eauto|discriminate|].
-  cbn [damage] in Hd. destruct c; try discriminate.
+  intros s o s' r Hc Hd Hz Hs di k c Hin.
+  destruct (step_dk _ _ _ _ Hs _ _ _ Hin) as [H|[H|(d0 & k0 & ->)]]; eauto.
+  cbn [damage] in Hd. destruct c; eauto; discriminate.
 Qed.
 
-(* ---- the theorems -------------------------------------------------------------------- *)
 Lemma history_independent_from : forall ops s,
   Inv s -> clean s -> no_hazard s ops = true -> no_damage ops = true -> all_agree s ops = true.
 Proof.
@@ -394,8 +453,8 @@ Proof.
   pose proof (step_clean _ _ _ _ Hc Hd1 Hz1 Es) as Hc'.
   apply andb_true_iff. split; [|apply IH; auto].
   destruct (is_call o) eqn:Eo; [|reflexivity].
-  destruct (Hr eq_refl) as [Hok|(e & di & k & pe & _ & Hin)]; [exact Hok|].
-  exfalso. exact (Hc _ _ _ Hin pe eq_refl).
+  destruct (Hr eq_refl) as [Hok|(e & _ & Hn)]; [exact Hok|].
+  exfalso. exact (Hn Hc).
 Qed.
 
 Theorem history_independent : forall ops,
@@ -416,7 +475,7 @@ Proof.
   destruct (step_good _ _ _ _ HI Hz1 Es) as [HI' Hr].
   apply andb_true_iff. split; [|apply IH; auto].
   destruct (is_call o) eqn:Eo; [|reflexivity].
-  destruct (Hr eq_refl) as [Hok|(e & di & k & pe & -> & Hin)].
+  destruct (Hr eq_refl) as [Hok|(e & -> & _)].
   - rewrite Hok. reflexivity.
   - apply orb_true_iff. right. destruct e; reflexivity.
 Qed.
